@@ -2,9 +2,9 @@
   driver_mux (property C12): the Lean side of harness/cmd/harness-mux. One line out per line in:
 
     # ...                                             -> skip
-    mux scenario <transport> <seed> <stopmid> <clients>
+    mux scenario <transport> <seed> <stopmid> <clients> [shared=<r>]
         -> expect mode=<exact|pref|subseq> conns=<C> msgs=<total> holders=<h> nconn=<h|any> nconnstop=0
-                  stopms<=2000 afterstop=0 grem=0 g1<=g0 rebind=1 race=0 model=<delivered>/<verdict of the spec on the model's run>
+                  stopms<=2000 afterstop=0 grem=0 g1<=g0 rebind=1 race=0 [shared=<r>] model=<delivered>/<verdict of the spec on the model's run>
         the canonical summary of what MUST hold in that scenario, plus the model (Model/Mux.lean) run under the
         fair round-robin schedule and judged by the same predicate
     mux facts
@@ -19,6 +19,9 @@
     <clients>   comma-separated <n><b>: n complete messages (sequence numbers 0..n-1, 0 = template), then
                 b = c (close) | a (half a message, then close) | i (stay connected, silent) | h (half a message, stay connected)
                 client i (0-based) is connection / observation domain i+1
+    shared=<r>  r >= 1: all clients export in observation domain 1 / template 256 and re-send the template as every
+                r-th message; client i is still connection i+1 (the harness attributes deliveries by the client number
+                the messages carry). The expectation is the same as without it.
 
   Core-only imports.
 -/
@@ -45,8 +48,20 @@ def parseClient (t : String) : Option Client :=
     else if b == "s" then some ⟨n, .stall⟩
     else none
 
+def parseShared (t : String) : Option Nat :=
+  if t.startsWith "shared=" then
+    match (t.drop 7).toNat? with
+    | some r => if 1 ≤ r ∧ r ≤ 65535 then some r else none
+    | none => none
+  else none
+
 def parseScenario (a : List String) : Option Scenario :=
   match a with
+  | [t, seed, sm, cl, sh] => do
+    let r ← parseShared sh
+    let sc ← parseScenario [t, seed, sm, cl]
+    if sc.clients.any (fun c => c.n > 65535) then none else
+    pure { sc with shared := r }
   | [t, seed, sm, cl] => do
     let t ← if t == "tcp" then some Transport.tcp else if t == "udp" then some .udp else if t == "tls" then some .tls else none
     let seed ← seed.toNat?
@@ -108,7 +123,8 @@ def opScenario (a : List String) : String :=
   | some sc =>
     let nconn := if sc.transport != .udp && sc.stopMid.isNone then toString sc.holders else "any"
     s!"expect mode={showMode sc.mode} conns={sc.clients.length} msgs={total sc} holders={sc.holders} nconn={nconn} nconnstop=0 " ++
-    s!"stopms<={stopBoundMs} afterstop=0 grem=0 g1<=g0 rebind=1 race=0 model={modelRun sc}"
+    s!"stopms<={stopBoundMs} afterstop=0 grem=0 g1<=g0 rebind=1 race=0 " ++
+    (if sc.shared != 0 then s!"shared={sc.shared} " else "") ++ s!"model={modelRun sc}"
 
 def opFacts : String :=
   let A := Generated.LocksCollector.accesses
